@@ -375,6 +375,10 @@ def c12_5(ctx: Ctx) -> RuleResult:
                     inc = call_.args[0].id
                     if any(isinstance(n, ast.Assign) and any(isinstance(t, ast.Name) and t.id == inc for t in n.targets) for b in lp.body for n in ast.walk(b)):
                         ok = True
+                # the comparison written out in the loop itself: the incumbent parameter is re-bound in the loop
+                cmp_here = [n_ for f_, n_, _t in better_compares(ctx) if f_ is f and any(n_ is x for b in lp.body for x in ast.walk(b))]
+                if cmp_here and any(isinstance(n, ast.Assign) and any(isinstance(t, ast.Name) and t.id in f.positional for t in n.targets) for b in lp.body for n in ast.walk(b)):
+                    ok = True
             res.add(f, f.node, "`best` carries the running optimum through the results of one event", ok, "" if ok else "several results of one event are each compared with the old optimum only", construct=f"{f.name}: running optimum")
             cmps = better_compares(ctx)
             ok = all(t[1] == "<" for _f, _n, t in [(a, b, norm(c)) for a, b, c in cmps])
